@@ -180,7 +180,8 @@ def applyMsg (ds : DS) (stake : Gov.StakeView) (w : MW) (m : Json) : Option (Exc
   | "auth.unlock" =>
     some ((Vesting.unlock w.v (fun a => w.accts.contains a) (J.strOf m "issuer") (J.strOf m "account") (J.coinsOf m "amt")).map (fun v => { w with v := v }))
   | "cvm.deploy" =>
-    if J.strOf m "newAddr" == "" then none   -- a failed deployment: the address is not known to the trace; compared as "nothing changes"
+    -- a failed deployment (the harness reports an address only on success): "a failed transaction changes nothing but the fee"
+    if J.strOf m "newAddr" == "" then some (err "cvm:deployment-failed")
     else some ((Cvm.deploy "uctk" w.l w.v w.k (J.strOf m "caller") (J.strOf m "newAddr") (J.strOf m "code") (J.intOf m "value")).map (fun (l, k) => { w with l := l, k := k }))
   | "cvm.call" =>
     let data := J.strOf m "data"
@@ -555,6 +556,12 @@ def handleTx (ds : DS) (j : Json) : IO DS := do
       | none => pure ()
   if ds.hasCvm then
     for m in msgs do
+      -- C17: work done by a constructor is charged even when the result cannot be committed
+      if J.strOf m "t" == "cvm.deploy" && J.has m "minGas" && msgs.length == 1 &&
+          (code == 0 || ((J.strOf j "log").splitOn "failed to execute message").length > 1) then   -- the message ran (not refused by the ante handler)
+        ds := stat ds s!"sit.c17.deploy_work_then_selfdestruct.{if code == 0 then "ok" else "fail"}"
+        if J.intOf j "gasUsed" < J.intOf m "minGas" then
+          ds ← finding ds "monitor" "C17" "execution_is_charged_when_commit_fails" s!"a constructor that ran at least {J.intOf m "minGas"} instructions and then destroyed its contract was charged {J.intOf j "gasUsed"} (code {code}, {J.strOf j "log"})"
       if J.strOf m "t" == "cvm.call" then
         ds := stat ds s!"sit.c18.call.{J.strOf m "kind"}.{if code == 0 then "ok" else "fail"}"
         -- C17: the gas an execution used is charged to the transaction whether or not it succeeds: an endless loop uses up the
@@ -918,8 +925,8 @@ partial def loop (hIn : IO.FS.Stream) (ds : DS) : IO DS := do
         let mut ds := { ds with h := J.intOf j "h" }
         for k in r.stats do ds := stat ds ("sit." ++ k)
         ds := { ds with stats := bump ds.stats "tx.payout.ok" 1 }
-        for (kind, name, detail) in r.findings do
-          ds ← finding ds kind "C02,C04" name detail
+        for (kind, props, name, detail) in r.findings do
+          ds ← finding ds kind props name detail
         pure ds
       | "cmp" => do
         -- C10: a second instance and a restarted instance were fed the same block
